@@ -126,6 +126,22 @@ func checkC04(c *Ctx) {
 	// the background build writes to and unlocks whatever the buffer holds by then (C09 R09.1)
 	c.borrowKinds("C09", func() { c.c09Retention() }, "R04.4", "Failover.Get:key-copied-before-go", []string{"R09.1"}, "read-in-goroutine")
 	c.c04CtorWiring("R04.9", false)
+	// "a later Get is able to build again": an expired entry leads to a rebuild only if Get recognises the backend's expiry error
+	// — by errors.As/errors.Is, so that a backend which wraps its read errors is understood too (C03 R03.1); an unrecognised
+	// read error is returned as it is, on every later Get as well
+	for _, sib := range siblings {
+		if fo := c.failover(sib); fo.Err == nil {
+			fo := fo
+			c.borrowKinds("C03", func() { c.c03Sibling(fo) }, "R04.6", sib+".Get:read-error-classified", []string{"R03.1"}, "unclassified-read-error")
+		}
+	}
+	// … and the in-module backends report every expired entry with the expiry error Get recognises (never a bare sentinel or
+	// another error: Get would return it without building) (C07 R07.2)
+	c.borrowKinds("C07", func() {
+		for _, b := range backends {
+			c.c07Read(b)
+		}
+	}, "R04.6", "backends.Read:expired-reported-as-expiry-error", []string{"R07.2"}, "present-unclassified", "expired-served-as-valid")
 	// R04.5: "when the caller's context is cancelled after Get returned" — the detached context's Done/Err/Deadline are its own
 	c.borrow("C06", func() { c.c06Detached() }, func(o *coreObl) (string, bool) { return "R04.5", o.Rule == "R06.4" })
 }
